@@ -1,5 +1,5 @@
 import CalicoVerif.Util.Proto
-import CalicoVerif.Model.C30
+import CalicoVerif.Model.C30Flat
 /-! Driver for C30.  Ops:
   `new`                                   → ok
   `ipset <id> <members>`                  → ok     members := `_` | m+m   m := <dotted>[/len] | r<dotted>#<count> | <v6 text>
@@ -10,6 +10,9 @@ import CalicoVerif.Model.C30
   `rules <in|out> <0|1> <ids>`            → GetPolicySetRules rendering
   `pkt <in|out> <0|1> <ids> <proto> <src> <sport> <dst> <dport>` → `<hns actions> <reference verdict>`
   `rule <n> <in|out> <policyId> <rule>`   → protoRuleToHnsRules with chunk size n
+  `flat <in|out> <tiers>`                 → flattenTiers + rewritePriorities rendering, or `panic`
+  `fpkt <in|out> <tiers> <proto> <src> <sport> <dst> <dport>` → `<hns actions|panic> <multi-tier reference verdict>`
+  tiers := tier/tier/…    tier := <0|1>:<ids>     (end-of-tier drop flag : policy set ids)
   rules := `_` | rule|rule
   rule  := action;ipver;proto;srcNet;dstNet;notSrcNet;notDstNet;srcPorts;dstPorts;srcSets;dstSets;ipportSets;flags;ruleId
   proto := `~` | n<name> | #<num>     nets/sets := `_` | x+x     ports := `_` | a-b+a-b    flags ⊆ "NIP" | `_`
@@ -112,6 +115,19 @@ def actionSet (as : List Action) : String :=
   let sorted := names.foldr insertSorted []
   if sorted.isEmpty then "-" else ",".intercalate sorted
 
+def parseTier (s : String) : Option (Bool × List String) :=
+  match s.splitOn ":" with
+  | [e, ids] => (boolOf e).map fun e => (e, parseIds ids)
+  | _ => none
+
+def parseTiers (s : String) : Option (List (Bool × List String)) := allSome ((s.splitOn "/").map parseTier)
+
+def tierRules (st : St) (d : Bool) (t : Bool × List String) : List HRule :=
+  getPolicySetRules (t.2.map fun id => (lookupSet st id).map (·.2)) d t.1
+
+def flatRules (st : St) (d : Bool) (ts : List (Bool × List String)) : Option (List HRule) :=
+  (flattenTiers (ts.map (tierRules st d))).map fun l => rewritePriorities l policyRuleMaxPriority
+
 def step (st : St) (line : String) : St × String :=
   if !st.init && words line != ["new"] then (st, "bad-op") else
   match words line with
@@ -157,6 +173,23 @@ def step (st : St) (line : String) : St × String :=
       let sets := ids.filterMap fun id => (lookupSet st id).map (·.1)
       let rv := (tierVerdict st.ipsets sets d e pkt).render
       (st, hv ++ " " ++ rv)
+    | _, _, _, _, _, _, _ => (st, "bad-op")
+  | ["flat", d, ts] =>
+    match dirOf d, parseTiers ts with
+    | some d, some ts =>
+      match flatRules st d ts with
+      | some l => (st, if l.isEmpty then "-" else " ; ".intercalate (l.map HRule.render))
+      | none => (st, "panic")
+    | _, _ => (st, "bad-op")
+  | ["fpkt", d, ts, pr, s, sp, t, dp] =>
+    match dirOf d, parseTiers ts, pr.toNat?, parseDotted s, sp.toNat?, parseDotted t, dp.toNat? with
+    | some d, some ts, some pr, some s, some sp, some t, some dp =>
+      let pkt : Pkt := ⟨pr, s, sp, t, dp⟩
+      let hv := match flatRules st d ts with
+        | some l => actionSet (hnsActions l pkt)
+        | none => "panic"
+      let ref := multiVerdict st.ipsets d pkt (ts.map fun t => (t.2.filterMap fun id => (lookupSet st id).map (·.1), t.1))
+      (st, hv ++ " " ++ ref.render)
     | _, _, _, _, _, _, _ => (st, "bad-op")
   | ["rule", n, d, pid, r] =>
     match n.toNat?, dirOf d, parseRule r with
